@@ -488,3 +488,21 @@ PROPS = {
      'technique': 'runtime monitoring: offline checker over recorded per-call output digests across processes and thread counts; ThreadSanitizer, Miri and '
                   'memcheck on the same workload'},
 }
+
+# strata and clauses added after the rule texts above were written (appended to the rule in the evidence)
+ADDENDA = {
+    'C01': 'Re-spellings include a coordinate written twice in a row (LineString, MultiLineString, Polygon, MultiPolygon) and clockwise-stored Triangles (tuple constructor).',
+    'C02': 'One operand of its concrete type against the other wrapped in the Geometry enum (either side) is judged for intersects / contains / within as well.',
+    'C07': 'Also judged: concrete-to-enum and enum-to-concrete forms of both trait families, the Coord forms (Coord-Coord, Coord-Line, Line-Coord; new and deprecated) and the public helper nearest_neighbour_distance for disjoint line strings.',
+    'C08': 'Stratum mixed-magnitude (1 case in 40, f64 and f32): far points m*2^50..57 together with points within 2^21 of the origin one lattice step beside a line from the origin to a far point, all exactly representable in the scalar type.',
+    'C10': 'Comb polygons (1 case in 30): 3-5 arms, notch apexes of different depths (several merge / split vertices pending at once in the monotone builder), mirrored / flipped / transposed, optionally with a hole in the spine. MultiPolygon members are also handed to the Delaunay family as Vec<Polygon> and as a slice; every MonoPoly piece must have the documented shape (two strictly increasing chains between the same end points; accessors, owned forms and bounds agree).',
+    'C12': 'MultiPolygons with members WITHOUT area (flat ring, one-coordinate ring) at any position, the first included, bare or inside a collection: interior_point must lie strictly inside a member that has area.',
+    'C13': 'AffineTransform::new, From<[T; 6]> and From<(T, T, T, T, T, T)> must name the six entries in the same order (f64 and i64). Triangles are stored as written (both windings) and compared up to the vertex order MapCoords gives them.',
+    'C14': 'The non-finite stratum includes Rects (+-inf corners); is_valid, validation_errors().is_empty() and check_validation().is_ok() must agree through the enum and through the concrete type.',
+    'C16': 'One case in 48 carries a track of 255-1030 coordinates (length = sum of segment distances must survive any batching); HaversineMeasure::default() has the documented radius.',
+    'C17': 'After the whole history geometry(), the clone and into_geometry() must still return the geometry that was prepared.',
+    'C18': 'After every Rect call with finite bounds, split_x / split_y must give two Rects with min <= max that share one cut inside the bounds and keep the outer bounds.',
+    'C20': 'placement.* ops: the same object as both operands against a separate equal copy (MultiPolygon and Polygon entry points, 4 operations), and unary_union over one listing of members given as a slice, as references with rising / falling addresses, separately boxed, and with one member listed twice (same object / equal copy), mixed windings: one digest for all.',
+}
+for _p, _t in ADDENDA.items():
+    PROPS[_p]['rule'] = PROPS[_p]['rule'] + ' ' + _t
